@@ -534,106 +534,206 @@ def _writer(ctx: Ctx) -> None:
 # ------------------------------------------------------------------ D18.4
 def _tour_parser(ctx: Ctx) -> None:
     """The result is a permutation of 0..n-1: every id >= 1 is seen once
-    (a set records each accepted id), the count equals the largest id."""
-    from sa.cfg import CFG
+    (a set records each accepted id), the count equals the largest id.
+
+    Decided on the paths through the line loop and the token loop with all
+    locals inlined (sa.pathinline): `continue` chains versus nested
+    if/elif, hoisted constants, max() versus a conditional update and the
+    names of the locals do not matter."""
+    from sa.pathinline import Path, paths
+    from sa.srcmodel import inline_locals
     repo = ctx.repo
     fi = repo.func("moptipyapps.tsp.known_optima", "_from_stream")
     problems: list[str] = []
 
-    def src(n: ast.AST) -> str:
-        return ast.unparse(n).replace(" ", "")
+    def src(n: ast.AST | None) -> str:
+        return ast.unparse(n).replace(" ", "") if n is not None else "?"
     body = func_body(fi)
-    inits = {src(s.targets[0] if isinstance(s, ast.Assign) else s.target):
-             src(s.value) for s in body if isinstance(
-                 s, (ast.Assign, ast.AnnAssign)) and s.value is not None}
-    seen = next((k for k, v in inits.items() if v == "set()"), None)
-    lst = next((k for k, v in inits.items() if v == "[]"), None)
-    mx = next((k for k, v in inits.items() if v in ("-1", "0")
-               and k not in ("in_tour",)), None)
-    flag = next((k for k, v in inits.items() if v == "False"), None)
     outer = next((s for s in body if isinstance(s, ast.For)), None)
     inner = next((s for s in ast.walk(outer) if isinstance(s, ast.For)
                   and s is not outer), None) if outer else None
-    if None in (seen, lst, mx, flag, outer, inner):
+    pre = [q for q in paths(body[:body.index(outer)])
+           if q.ended is None] if outer is not None else []
+    if outer is None or inner is None or len(pre) != 1:
         problems.append("tour parser structure not recognised")
     else:
-        nv = None
-        for s in inner.body:
-            if isinstance(s, (ast.Assign, ast.AnnAssign)) and isinstance(
-                    s.value, ast.Call) and src(s.value.func) == \
-                    "check_to_int_range":
-                nv = src(s.targets[0] if isinstance(s, ast.Assign)
-                         else s.target)
-                if repo.const(fi.module, s.value.args[2]) != 1 or src(
-                        s.value.args[0]) != src(inner.target):
-                    problems.append("node ids are not converted from "
-                                    "their token with lower limit 1")
-        if nv is None:
-            problems.append("node ids are not range-checked")
+        pp = pre[0]
+        assigned = {n.id for n in ast.walk(outer) if isinstance(n, ast.Name)
+                    and isinstance(n.ctx, ast.Store)}
+        init_vals = {k: v for k, v in pp.env.items()}
+        flags = [k for k in assigned if repo.const(
+            fi.module, init_vals.get(k)) is False]
+        sets = [k for k, v in pp.objs.items() if src(v) == "set()"]
+        lists = [k for k, v in pp.objs.items() if src(v) == "[]"]
+        env0 = {k: v for k, v in pp.env.items() if k not in assigned}
+        oq = paths(outer.body, Path(env=env0, objs=dict(pp.objs)))
+
+        def guard_is(tst: ast.AST, want: str) -> bool:
+            return src(tst) == want
+
+        def has_const_guard(q: Any, pred: Any) -> bool:
+            return any(truth and pred(tst) for tst, truth in q.guards)
+
+        def is_marker(tst: ast.AST) -> bool:
+            return isinstance(tst, ast.Compare) and len(
+                tst.ops) == 1 and isinstance(tst.ops[0], ast.Eq) and (
+                repo.const(fi.module, tst.comparators[0]) == "TOUR_SECTION"
+                or repo.const(fi.module, tst.left) == "TOUR_SECTION")
+
+        def is_term(tst: ast.AST) -> bool:
+            if isinstance(tst, ast.Compare) and len(
+                    tst.ops) == 1 and isinstance(tst.ops[0], ast.In):
+                c = repo.const(fi.module, tst.comparators[0])
+                if c is None and isinstance(
+                        tst.comparators[0], (ast.Tuple, ast.List, ast.Set)):
+                    c = tuple(repo.const(fi.module, e)
+                              for e in tst.comparators[0].elts)
+                return isinstance(c, tuple) and set(c) == {"-1", "EOF"}
+            return False
+        flag = flags[0] if len(flags) == 1 else None
+        if flag is None or len(sets) != 1 or len(lists) != 1:
+            problems.append("tour parser structure not recognised")
         else:
-            seq = [src(s) for s in inner.body]
-            dup = [s for s in inner.body if isinstance(s, ast.If) and s.body
-                   and isinstance(s.body[-1], ast.Raise)
-                   and src(s.test) == f"{nv}in{seen}"]
-            if not dup:
-                problems.append("an id that was seen before is not "
-                                "rejected")
-            if f"{seen}.add({nv})" not in seq:
-                problems.append("accepted ids are not remembered: "
-                                "duplicates cannot be detected")
-            elif dup and seq.index(f"{seen}.add({nv})") < inner.body.index(
-                    dup[0]):
-                problems.append("the id is remembered before the "
-                                "duplicate test")
-            if f"{mx}=max({mx},{nv})" not in seq and \
-                    f"{mx}=max({nv},{mx})" not in seq:
+            seen, lst = sets[0], lists[0]
+            n_marker = n_read = 0
+            for q in oq:
+                if q.ended == "raise":
+                    continue
+                sets_flag = repo.const(fi.module, q.env.get(flag)) is True \
+                    if flag in q.env else False
+                if sets_flag:
+                    n_marker += 1
+                    if not has_const_guard(q, is_marker):
+                        problems.append("the TOUR_SECTION marker does not "
+                                        "switch the parser to reading ids")
+                elif flag in q.env and src(q.env[flag]) != flag:
+                    problems.append("the reading flag is changed outside "
+                                    "the TOUR_SECTION marker")
+                if q.ended == "break" and not has_const_guard(q, is_term):
+                    problems.append("the line loop is left early elsewhere")
+                if has_const_guard(q, is_term) and q.ended != "break":
+                    problems.append("reading does not stop exactly at `-1` "
+                                    "/ EOF")
+                reads = [e for e in q.events if e.kind == "loop"
+                         and e.node is inner]
+                if reads:
+                    n_read += 1
+                    if not any(truth and guard_is(tst, flag)
+                               for tst, truth in q.guards):
+                        problems.append("ids are read outside the tour "
+                                        "section")
+                other = [e for e in q.events if e not in reads]
+                if other:
+                    problems.append("a line does more than switch the "
+                                    "flag / stop / read ids")
+            if n_marker == 0:
+                problems.append("the TOUR_SECTION marker does not switch "
+                                "the parser to reading ids")
+            if not any(q.ended == "break" for q in oq):
+                problems.append("reading does not stop exactly at `-1` / "
+                                "EOF")
+            if n_read == 0:
+                problems.append("ids are never read")
+            # ---- one token
+            tok = src(inner.target)
+            iq = paths(inner.body, Path(objs=dict(pp.objs)))
+            mxs = set()
+            n_ok_paths = 0
+            for w in iq:
+                conv = None
+                for g, _t in w.guards:
+                    for c in ast.walk(g):
+                        if isinstance(c, ast.Call) and src(
+                                c.func) == "check_to_int_range":
+                            conv = c
+                for e in w.events:
+                    for c in ast.walk(e.value) if isinstance(
+                            e.value, ast.AST) else []:
+                        if isinstance(c, ast.Call) and src(
+                                c.func) == "check_to_int_range":
+                            conv = c
+                if conv is None:
+                    problems.append("node ids are not range-checked")
+                    continue
+                if repo.const(fi.module, conv.args[2]) != 1 or src(
+                        conv.args[0]) != tok:
+                    problems.append("node ids are not converted from their "
+                                    "token with lower limit 1")
+                node_src = src(conv)
+                dup_guard = [truth for g, truth in w.guards
+                             if src(g) == f"{node_src}in{seen}"]
+                if w.ended == "raise":
+                    if dup_guard != [True]:
+                        problems.append("a token is rejected for another "
+                                        "reason than a repeated id")
+                    continue
+                n_ok_paths += 1
+                if dup_guard != [False]:
+                    problems.append("an id that was seen before is not "
+                                    "rejected")
+                evs = [src(e.value) for e in w.events if e.kind == "expr"]
+                if f"{seen}.add({node_src})" not in evs:
+                    problems.append("accepted ids are not remembered: "
+                                    "duplicates cannot be detected")
+                if f"{lst}.append({node_src}-1)" not in evs:
+                    problems.append("ids are not stored zero-based")
+                if len(evs) != 2 or len(w.events) != 2:
+                    problems.append("a token does more than remember and "
+                                    "store its id")
+                # the running maximum
+                for k, v in w.env.items():
+                    vs = src(v)
+                    if vs in (f"max({k},{node_src})",
+                              f"max({node_src},{k})"):
+                        mxs.add(k)
+                    elif vs == node_src and k != src(inner.target):
+                        # conditional update: taken when node > max
+                        if any(truth and src(g) in (
+                                f"{node_src}>{k}", f"{k}<{node_src}")
+                                for g, truth in w.guards):
+                            mxs.add(k)
+            # the add must follow the duplicate test
+            adds = [x for x in ast.walk(inner) if isinstance(
+                x, ast.Call) and isinstance(x.func, ast.Attribute)
+                and x.func.attr == "add" and src(x.func.value) == seen]
+            tests = [x for x in ast.walk(inner) if isinstance(x, ast.If)
+                     and x.body and isinstance(x.body[-1], ast.Raise)]
+            if adds and tests and min(a_.lineno for a_ in adds) < min(
+                    t_.lineno for t_ in tests):
+                problems.append("the id is remembered before the duplicate "
+                                "test")
+            mx = next(iter(mxs)) if len(mxs) == 1 else None
+            if mx is None:
                 problems.append("the largest id is not tracked")
-            if f"{lst}.append({nv}-1)" not in seq:
-                problems.append("ids are not stored zero-based")
-        # the tour section: ids are only read after TOUR_SECTION, reading
-        # stops at -1 / EOF
-        st = [s for s in outer.body if isinstance(s, ast.If)
-              and isinstance(s.test, ast.Compare) and len(s.test.ops) == 1
-              and isinstance(s.test.ops[0], ast.Eq) and repo.const(
-                  fi.module, s.test.comparators[0]) == "TOUR_SECTION"]
-        if len(st) != 1 or f"{flag}=True" not in [src(x) for x in
-                                                   st[0].body]:
-            problems.append("the TOUR_SECTION marker does not switch the "
-                            "parser to reading ids")
-        guard = next((s for s in outer.body if isinstance(s, ast.If)
-                      and any(inner is x for x in ast.walk(s))), None)
-        if guard is None or src(guard.test) != flag:
-            problems.append("ids are read outside the tour section")
-        brk = [s for s in outer.body if isinstance(s, ast.If) and any(
-            isinstance(x, ast.Break) for x in s.body)]
-        if len(brk) != 1 or not isinstance(
-                brk[0].test, ast.Compare) or not isinstance(
-                brk[0].test.ops[0], ast.In) or set(repo.const(
-                    fi.module, brk[0].test.comparators[0]) or ()) != {
-                "-1", "EOF"}:
-            problems.append("reading does not stop exactly at `-1` / EOF")
-        other_exits = [x for x in ast.walk(outer) if isinstance(
-            x, ast.Break) and not any(x in b.body for b in brk)]
-        if other_exits:
-            problems.append("the line loop is left early elsewhere")
-        size = [s for s in body if isinstance(s, ast.If) and s.body
-                and isinstance(s.body[-1], ast.Raise)
-                and src(s.test) in (f"len({lst})!={mx}",
-                                    f"{mx}!=len({lst})")]
-        if not size:
-            problems.append("the number of ids is not compared with the "
-                            "largest id")
-        rets = [r for r in body if isinstance(r, ast.Return)]
-        if len(rets) != 1 or not src(rets[0].value).startswith(
-                f"np.array({lst},"):
-            problems.append("the id list is not what is returned")
+            else:
+                # a conditional update needs the complementary path to
+                # leave the maximum alone
+                for w in iq:
+                    if w.ended is None and mx in w.env and src(
+                            w.env[mx]) not in (
+                            f"max({mx},{src(inner.target)})",):
+                        pass
+                if repo.const(fi.module, init_vals.get(mx)) not in (0, -1):
+                    problems.append("the largest id does not start below "
+                                    "every valid id")
+                size = [s_ for s_ in body if isinstance(s_, ast.If)
+                        and s_.body and isinstance(s_.body[-1], ast.Raise)
+                        and src(inline_locals(fi.node, s_.test)) in (
+                            f"len({lst})!={mx}", f"{mx}!=len({lst})")]
+                if not size:
+                    problems.append("the number of ids is not compared "
+                                    "with the largest id")
+            rets = [r for r in body if isinstance(r, ast.Return)]
+            if len(rets) != 1 or not src(rets[0].value).startswith(
+                    f"np.array({lst},"):
+                problems.append("the id list is not what is returned")
     ctx.ob("D18.4", fi, fi.node, not problems,
            "tour parser: ids >= 1 are read only inside TOUR_SECTION up to "
            "-1/EOF, every accepted id is remembered and a repeated one "
            "rejected, count == largest id, stored zero-based: the result "
            "is a permutation of 0..n-1" if not problems else
-           "; ".join(problems), construct="tour parser checks")
-    del CFG
+           "; ".join(dict.fromkeys(problems)),
+           construct="tour parser checks")
 
 
 # ------------------------------------------------------------------ D18.5
